@@ -26,6 +26,17 @@ def run(ctx):
     progs = F.c10_family(ctx.tier, rnd)
     agg = run_family("C10i18n", progs, NAMES, dev=dev, invariants=INVS, perms=(0, 1), timeout=3000)
     ctx.add_family(agg)
+    # implicit_i18n_attributes: the attribute programs of C07 (static, computed, default, dropped, dictionaries, twins)
+    # with `class` and `title` configured as implicitly translated: every such attribute that is written is offered
+    # (id = text) with the settings in force, whatever its source.  (The attribute-source deviation recorded under C07
+    # applies to these programs as it does there.)
+    base = [p for p in F.c07_family(ctx.tier, rnd) if p["fam"].endswith(":none") or "twins" in p["fam"]]
+    if ctx.tier == "quick":
+        base = rnd.sample(base, min(len(base), 60))
+    iprogs = [F.with_implicit(p, {"class", "title"}, "rewrite" if n % 2 else "identity") for n, p in enumerate(base)]
+    agg = run_family("C10implicit", iprogs, NAMES, dev=sorted(set(dev) | {"DictOverridesByPosition"}),
+                     invariants=["WellBracketed", "AttrAtMostOncePerName"], perms=(0, 1), timeout=3000)
+    ctx.add_family(agg)
     c10_extra.run(ctx, rnd)
     c10_extra.per_render(ctx)
     # translated attributes are translated wherever the element's start tag is written: also in the tal:on-error fallback
